@@ -98,7 +98,15 @@ def walk(schema, op):
     """yield (field selection, parent type, features) for every field of the operation"""
     root = "Mutation" if op["kind"] == "mutation" else "Query"
 
-    def rec(sel, tn, feat, field_type_abstract):
+    def key(x):
+        return x["alias"] or x["name"]
+
+    def rec(sel, tn, feat, field_type_abstract, merged_here=None):
+        # selections of all same-key occurrences at this level (what normalization / CollectFields merges)
+        if merged_here is None:
+            merged_here = {}
+            for x in flat_fields(sel):
+                merged_here.setdefault(key(x), []).extend(x["sel"])
         for s in sel:
             if s["k"] == "f":
                 f = dict(feat)
@@ -108,15 +116,17 @@ def walk(schema, op):
                 nt = schema.named(tn, s["name"]) if s["name"] != "__typename" else None
                 if nt and s["sel"]:
                     g = dict(feat)
-                    g["in_member_fragment"] = False
+                    # in_member_fragment is inherited: the context path of every resolver further down still has to
+                    # step through the oneof wrapper of the abstract value
                     g["under_nested_list"] = feat["under_nested_list"] or schema.list_wraps(tn, s["name"]) >= 2
-                    g["in_resolver"] = feat["in_resolver"] or f["is_resolver"]
-                    g["siblings"] = s["sel"]
-                    yield from rec(s["sel"], nt, g, schema.is_abstract(nt))
+                    g["in_resolver"] = feat["in_resolver"] or f["is_resolver"] or f["is_requires"]
+                    msel = merged_here.get(key(s), s["sel"])
+                    g["siblings"] = msel
+                    yield from rec(msel, nt, g, schema.is_abstract(nt))
             else:
                 g = dict(feat)
                 g["in_member_fragment"] = feat["in_member_fragment"] or field_type_abstract
-                yield from rec(s["sel"], s["on"], g, field_type_abstract)
+                yield from rec(s["sel"], s["on"], g, field_type_abstract, merged_here)
 
     base = {"in_member_fragment": False, "under_nested_list": False, "in_resolver": False, "siblings": op["sel"]}
     yield from rec(op["sel"], root, base, False)
